@@ -178,6 +178,52 @@ def run(tier, seed):
     reqs.append(('chain', tbl, [params, [[0, genesis.serialize()]] + ops, 0]))
     meta.append(('checkpoint-table', expect, {'kind': 'table'}))
 
+    # ---------------- (b2) shipped constants, the recorded real blocks as the chain: a block built on the real head that
+    #                  merely DECLARES a height at or below the horizon must not ride the checkpoint shortcut
+    try:
+        from skepticoin.datatypes import BlockHeader, BlockSummary, PowEvidence
+        cs_real = CoinState.zero()
+        real = real_blocks()
+        for fn, raw, blk in real:
+            cs_real = cs_real.add_block_no_validation(blk)
+        rhead = cs_real.head()
+        ops2, expect2 = [], []
+        tbl2 = list(tbl)
+        for fn, raw, blk in real:
+            tbl2.append(('sha256d', blk.header.serialize(), spec.sha256d(blk.header.serialize())))
+            for t in blk.transactions:
+                tbl2.append(('sha256d', t.serialize(), spec.sha256d(t.serialize())))
+        for d in (1, 2, 3, 499, 500, 501, 162999, 163000):
+            if d == rhead.height + 1:
+                continue
+            cb = chaingen.coinbase(d, 10 ** 15, b'\x22' * 64, data=b'c18')
+            mr = spec.merkle_root([spec.sha256d(cb.serialize())])
+            nonce = 0
+            while True:
+                summ = BlockSummary(d, rhead.hash(), mr, rhead.timestamp + 1, b'\xff' * 32, nonce)
+                ablk = Block(BlockHeader(summ, PowEvidence(b'\x00' * 32, b'\x00' * 32, b'\x00' * 32)), [cb])
+                if ablk.hash() < ablk.target:
+                    break
+                nonce += 1
+            v, new = consensus_check.impl_verdict(cs_real, ablk, rhead.timestamp + 2)
+            ck.case(('declared', d), kind='declared-height-below-horizon/%s' % ('accept' if v == [1] else 'reject'),
+                    sample={'parent_height': rhead.height, 'declared_height': d, 'verdict': v} if d == 1 else None)
+            if v == [1]:
+                ck.violation('declared-height-below-horizon-accepted',
+                             'shipped constants: a block built on the head (height %d) that declares height %d, with target 2^256-1, '
+                             'zeroed proof-of-work evidence and a reward of 10^15, is accepted by full validation%s'
+                             % (rhead.height, d, ' and becomes the head' if new.head().hash() == ablk.hash() else ''),
+                             {'kind': 'declared-height', 'declared': d, 'block': ablk.serialize().hex()})
+            hid = spec.sha256d(ablk.header.serialize())
+            ops2.append([6, ablk.serialize(), rhead.timestamp + 2, [[b'sha256d', ablk.header.serialize(), hid],
+                                                                     [b'sha256d', cb.serialize(), spec.sha256d(cb.serialize())]]])
+            expect2.append(v)
+        reqs.append(('chain', tbl2, [params, [[0, genesis.serialize()]] + [[0, raw] for fn, raw, blk in real] + ops2, 0]))
+        meta.append(('declared-height', expect2, {'kind': 'declared-height'}))
+    except Exception as e:
+        import traceback
+        ck.disagree('declared-height probe raised %r' % (e,), {'trace': traceback.format_exc()[-500:]})
+
     # ---------------- (c) generated chains under a test horizon
     keys = chaingen.Keys()
     ntrees = 3 if tier == 'quick' else 15
@@ -225,6 +271,10 @@ def run(tier, seed):
                 if got != want:
                     bad = [i for i, (a, b) in enumerate(zip(want, got)) if a != b]
                     ck.disagree('validate_block_in_coinstate vs model on the checkpoint table: %d cases differ' % len(bad), rp)
+            elif what == 'declared-height':
+                got = o[0][-len(want):] if want else []
+                if got != want:
+                    ck.disagree('add_block vs model on blocks declaring a height below the horizon: impl %s model %s' % (want, got), rp)
             else:
                 got = o[0][-1]
                 if got != want:
@@ -236,6 +286,16 @@ def run(tier, seed):
 def replay(path):
     d = json.load(open(path))
     rp = d.get('replay', {})
+    if rp.get('kind') == 'declared-height':
+        from skepticoin.datatypes import Block
+        from skepticoin.coinstate import CoinState
+        cs = CoinState.zero()
+        for fn, raw, blk in real_blocks():
+            cs = cs.add_block_no_validation(blk)
+        ablk = Block.deserialize(bytes.fromhex(rp['block']))
+        v, _ = consensus_check.impl_verdict(cs, ablk, cs.head().timestamp + 2)
+        print('block declaring height %d on the real head (height %d): verdict %s (1 = accepted)' % (rp['declared'], cs.head().height, v))
+        return 1 if v == [1] else 0
     if rp.get('label') == 'fork-at-checkpoint':
         from skepticoin.datatypes import Block
         with chaingen.Env(period=rp['period'], hz=rp['hz'], known={int(k): v for k, v in rp['known'].items()}):
